@@ -13,6 +13,24 @@ HJ(mode) == [op |-> "hj", c |-> mode]
 (* http.NewResponseController(w).Flush(): reaches the client through Unwrap; *)
 (* like a Write it commits the header (implicit 200)                         *)
 FL    == [op |-> "fl", c |-> 0]
+(* the other capabilities of http.ResponseController: SetReadDeadline,      *)
+(* SetWriteDeadline, EnableFullDuplex                                        *)
+SRD   == [op |-> "srd", c |-> 0]
+SWD   == [op |-> "swd", c |-> 0]
+EFD   == [op |-> "efd", c |-> 0]
+Capabilities == {"hj", "fl", "srd", "swd", "efd"}
+
+(* FOREIGN middlewares placed before the LogMiddleware may wrap the          *)
+(* ResponseWriter.  http.ResponseController looks for a capability at each   *)
+(* writer from the handler's outwards: a writer that implements it is called *)
+(* (and forwards), one that only has Unwrap is stepped over, anything else   *)
+(* ends the search with ErrNotSupported.  Wrapper kinds:                     *)
+(*   unwrap    http.ResponseWriter + Unwrap only (the modern idiom)          *)
+(*   flushfwd  forwards Flush itself, no Unwrap: only Flush gets through     *)
+(*   opaque    a bare http.ResponseWriter: no capability gets through        *)
+WrapperKinds == {"unwrap", "flushfwd", "opaque"}
+LetsThrough(kind, cap) == kind = "unwrap" \/ (kind = "flushfwd" /\ cap = "fl")
+ChainPasses(chain, cap) == \A x \in 1..Len(chain) : LetsThrough(chain[x], cap)
 
 (* Handler behaviours of the property's quantifier ("WriteHeader or not, any *)
 (* code"), plus the orders and status classes net/http treats specially.     *)
@@ -38,9 +56,11 @@ BehOps(b) ==
       [] b = "hjunsup" -> <<HJ(3), WH(501)>>        \* no Hijacker underneath
       [] b = "flush"   -> <<WH(200), FL, W>>
       [] b = "flfirst" -> <<FL, WH(500)>>           \* the flush has already sent 200
+      [] b = "deadline" -> <<SRD, SWD, WH(200), W>>
+      [] b = "duplex"  -> <<EFD, W>>
 AllBehNames == {"none", "w", "wh200", "wh404", "wh500", "twice", "afterw"}
 ClassBehNames == {"wh101", "wh103", "hints", "wh204", "wh304", "wh599", "wh999"}
-HijackBehNames == {"hj", "hjfail", "hjunsup", "flush", "flfirst"}
+HijackBehNames == {"hj", "hjfail", "hjunsup", "flush", "flfirst", "deadline", "duplex"}
 
 (* Request-target forms (RFC 9112 3.2).  The RequestURI field of the request *)
 (* is the target as the client sent it; URL.RequestURI() re-derives a target *)
